@@ -301,6 +301,133 @@ def semantic_latex(prog):
     return True, "%d (formula, layout) instances folded and read back" % cnt
 
 
+def _dimacs_spec(text):
+    """the documented grammar: comment lines, one `p cnf n m` line, then m zero-terminated clauses over 1..n (a clause may span lines)
+    -> (n, clauses) or None when the text is not a DIMACS formula"""
+    n = m = None
+    clauses, cur = [], []
+    for ln in file_lines(text if text.endswith("\n") or not text else text + "\n"):
+        ln = ln.strip()
+        if not ln or ln[0] == "c":
+            continue
+        if ln[0] == "p":
+            toks = ln.split()
+            if n is not None or len(toks) != 4:
+                return None
+            try:
+                n, m = int(toks[2]), int(toks[3])
+            except ValueError:
+                return None
+            if n < 0 or m < 0:
+                return None
+            continue
+        if n is None:
+            return None
+        for t in ln.split():
+            try:
+                v = int(t)
+            except ValueError:
+                return None
+            if v == 0:
+                clauses.append(cur)
+                cur = []
+            elif 1 <= abs(v) <= n:
+                cur.append(v)
+            else:
+                return None
+    if n is None or cur or len(clauses) != m:
+        return None
+    return n, clauses
+
+
+def semantic_dimacs_reader(prog):
+    """from_dimacs_file (with parse_dimacs) folded over DIMACS texts and damaged variants of them: a text of the documented grammar is read
+    as exactly its variable count and clauses (unused variables kept, clauses spanning lines joined); any other text is refused with
+    ValueError"""
+    import ast
+    fi = prog.func("cnfgen.utils.parsedimacs", "from_dimacs_file")
+    m = prog.module("cnfgen.utils.parsedimacs")
+
+    class Rec:
+        def __init__(self, *a, **k):
+            self.n, self.cl, self.header = 0, [], {"description": k.get("description")}
+
+        def update_variable_number(self, v):
+            self.n = max(self.n, v)
+
+        def add_clause(self, c, check=True):
+            c = list(c)
+            self.cl.append(c)
+            if check and c:
+                self.n = max(self.n, max(abs(l) for l in c))
+
+        def add_clauses_from(self, cs, check=True):
+            for c in cs:
+                self.add_clause(c, check=check)
+
+    class TextIn:
+        def __init__(self, text):
+            self.lines, self.pos, self.name = text.splitlines(True), 0, "<text>"
+
+        def readlines(self):
+            rest, self.pos = self.lines[self.pos:], len(self.lines)
+            return list(rest)
+
+        def readline(self):
+            if self.pos >= len(self.lines):
+                return ""
+            self.pos += 1
+            return self.lines[self.pos - 1]
+
+        def read(self):
+            return "".join(self.readlines())
+
+        def __iter__(self):
+            return iter(self.readlines())
+    base = ["p cnf 0 0\n", "p cnf 3 0\n", "c a comment\np cnf 3 2\n1 -2 0\n3 0\n", "p cnf 4 3\n1 -4\n 2 0 0\n-3 0\n", "p cnf 2 2\n1 0 -2 0\n",
+            "\nc x\n\np cnf 5 1\n\n1 2\nc inside\n3 0\n", "p cnf 1 2\n0\n0\n", "p  cnf   2   1 \n -1   2  0 \n"]
+    texts = []
+    for t in base:
+        texts.append(t)
+        lines = t.splitlines(True)
+        for i in range(len(lines)):
+            toks = lines[i].split()
+            texts.append("".join(lines[:i] + lines[i + 1:]))
+            if toks:
+                texts.append("".join(lines[:i] + [" ".join(toks[:-1]) + "\n"] + lines[i + 1:]))
+                texts.append("".join(lines[:i] + [" ".join(toks[:-1] + ["x"]) + "\n"] + lines[i + 1:]))
+                texts.append("".join(lines[:i] + [" ".join(toks + ["9"]) + "\n"] + lines[i + 1:]))
+                texts.append("".join(lines[:i] + [" ".join(toks[:-1] + ["-9"] + toks[-1:]) + "\n"] + lines[i + 1:]))
+                texts.append("".join(lines[:i] + [lines[i]] * 2 + lines[i + 1:]))
+        texts.append(t[:len(t) // 2])
+        texts.append(t + "1 0\n")
+        texts.append(t + "junk\n")
+    texts += ["p cnf 0 2\n0\n0\n", "p cnf 0 1\n 0\n", "p cnf 2 1\n1 -3 0\n", "p cnf 2 1\n-7 0\n", "p cnf 0 1\n1 0\n", "p cnf 0 1\n-1 0\n"]
+    texts += ["", "p\n", "p cnf\n", "p cnf 3\n", "p cnf -1 0\n", "p cnf 2 -1\n", "p cnf 2 1 7\n1 0\n", "1 0\np cnf 1 1\n"]
+    cnt = 0
+    for text in texts:
+        want = _dimacs_spec(text)
+        f = Folder(env={}, fuel=200000)
+        f.module_functions = {n.name: n for n in m.tree.body if isinstance(n, ast.FunctionDef)}
+        f.globals = {"sys": __import__("types").SimpleNamespace(stdin=None, stdout=None)}
+        try:
+            out = ("value", f.call_function(fi.node, [Rec, TextIn(text)], {}))
+        except Raised as r:
+            out = ("raises", r.cls.split("(")[0])
+        except Unknown as e:
+            return None, "cannot fold from_dimacs_file: %s" % e
+        if want is None:
+            if out != ("raises", "ValueError"):
+                got = out[1] if out[0] == "raises" else "a formula with %d variables and clauses %s" % (out[1].n, out[1].cl)
+                return False, "the text %r is not a DIMACS formula (truncated / corrupted): the reader gives %s; ValueError expected" % (text, got)
+        else:
+            if out[0] != "value" or not isinstance(out[1], Rec) or out[1].n != want[0] or out[1].cl != want[1]:
+                got = out[1] if out[0] == "raises" else "%d variables and clauses %s" % (out[1].n, out[1].cl)
+                return False, "the text %r denotes %d variables and the clauses %s; the reader gives %s" % (text, want[0], want[1], got)
+        cnt += 1
+    return True, "%d DIMACS texts (valid, truncated, corrupted, with blank and comment lines) folded through from_dimacs_file" % cnt
+
+
 _V = {}
 
 
@@ -308,7 +435,7 @@ def verdict(prog, which):
     key = (id(prog), which)
     if key not in _V:
         try:
-            _V[key] = {"dimacs": semantic_dimacs, "opb": semantic_opb, "latex": semantic_latex}[which](prog)
+            _V[key] = {"dimacs": semantic_dimacs, "opb": semantic_opb, "latex": semantic_latex, "dimacs-reader": semantic_dimacs_reader}[which](prog)
         except Unknown as e:
             _V[key] = (None, "cannot fold: %s" % e)
     return _V[key]
